@@ -176,7 +176,7 @@ Lemma sparse_advance_timeline : forall p gs g w d p' o r G,
   Forall (fun c => cs_last c + 1 < I32MAX) (ps_status p) -> TI p gs G ->
   exists gs', QSg true w d p' gs' /\ TI p' gs' (replay_hist G (o_requests o)) /\
     hist_step d (ps_pending p) (local_handles p) gs gs' /\ ps_kinds p' = ps_kinds p /\ spec_step p gs' o p' /\
-    Forall (truthful_lt (s_current (ps_sync p')) gs') (adv_frames G (o_requests o)).
+    Forall (truthful_lt (s_current (ps_sync p')) gs') (adv_frames G (o_requests o)) /\ sends_adv p gs gs' p' o.
 Proof.
   intros p gs g w d p' o r G E HQS (HJS & HXs) Hbnd _ HTI.
   pose proof (SX_of_SXs _ _ _ _ _ HQS HXs) as HSX.
@@ -185,7 +185,7 @@ Proof.
   pose proof (js_w _ _ _ HJS) as Hw1p. rewrite (Z.max_r 1 w) in Hfw by lia.
   unfold advance in E. rewrite Hrun in E. cbn [negb] in E.
   destruct (forallb _ (local_handles p)) eqn:Efa; cbn [negb] in E.
-  2:{ injection E as <- <- <-. exists gs. split; [exact HQS|]. split; [exact HTI|]. split; [apply hist_step_refl|]. split; [reflexivity|]. split; [apply spec_step_none; [exact Hsok|reflexivity..]|constructor]. }
+  2:{ injection E as <- <- <-. exists gs. split; [exact HQS|]. split; [exact HTI|]. split; [apply hist_step_refl|]. split; [reflexivity|]. split; [apply spec_step_none; [exact Hsok|reflexivity..]|split; [constructor|intros HO; split; [exact HO|constructor]]]. }
   assert (Hpend : forall h, In h (local_handles p) -> exists pi, assoc_get (ps_pending p) h = Some pi).
   { intros h Hin. rewrite forallb_forall in Efa. specialize (Efa h Hin).
     destruct (assoc_get (ps_pending p) h); [eauto|discriminate]. }
@@ -224,17 +224,21 @@ Proof.
       { destruct (Z.eq_dec (s_last_saved (ps_sync p)) NULL) as [En|En]; [specialize (X2 En); lia|unfold NULL in En; lia]. }
       split; [reflexivity|]. split; [reflexivity|]. split; [reflexivity|]. split; [reflexivity|]. split; [exact HTI|]. split; [intros G0; reflexivity|repeat split]. }
   destruct Hfirst as (p1 & o1 & g1 & E1 & HQS1 & HJS1 & HSX1 & HS1 & Hst1 & Hlh1 & Hpe1 & Hrm1 & HTI1 & Hrep1 & Hkk1 & Hns1 & Hss1 & Hos1 & Hadv1).
+  pose proof (first_save_out _ _ _ _ E1) as (Hog1 & Hls1 & Hrs1).
   rewrite E1 in E. cbn [res_bind] in E.
   rewrite (update_disconnects_noop p1) in E; [|rewrite Hst1; exact Hconn|rewrite Hrm1; exact Hgos]. cbn [res_bind] in E.
   destruct (advance_rollback_frame predict p1 o1) as [[p3 o3]| |] eqn:E3; cbn [res_bind] in E; try discriminate.
   injection E as <- <- <-.
   assert (Hbnd1 : Forall (fun c => cs_last c < I32MAX) (ps_status p1)) by (rewrite Hst1; exact Hbnd).
   destruct (advance_rollback_timeline_gen predict predict_idem true p1 gs w d o1 p3 o3 G E3 HQS1 Hbnd1)
-    as (gs' & R & Ho & HQS' & HTI' & Hh' & Hkk' & HTR' & cf & Ecf & Hsent & Hns' & Hss'); [| |exact HTI1|].
+    as (gs' & R & Ho & HQS' & HTI' & Hh' & Hkk' & HTR' & cf & Ecf & Hsent & Hns' & Hss' & Hout'); [| |exact HTI1|].
   { intros h Hin. rewrite Hpe1. apply Hpend. rewrite <- Hlh1. exact Hin. }
   { intros cf Ecf HLcf _. exact (sparse_rollback_ti p1 gs g1 w d o1 cf G HQS1 HJS1 HSX1 HS1 Ecf HLcf Hbnd1 HTI1). }
   exists gs'. split; [exact HQS'|]. split; [rewrite Ho, replay_hist_app, Hrep1; exact HTI'|]. split; [rewrite <- Hpe1, <- Hlh1; exact Hh'|]. split; [congruence|].
-  split; [|rewrite Ho, adv_frames_app, Hadv1, Hrep1; exact HTR'].
+  split; [|split; [rewrite Ho, adv_frames_app, Hadv1, Hrep1; exact HTR'|]].
+  2:{ intros HO. destruct Hout' as (HO' & rounds & Q1 & Q2).
+      { intros Hr1. rewrite Hrm1 in Hr1. eapply OI_same; [exact (HO Hr1)|exact Hog1|exact Hls1|exact Hlh1|reflexivity]. }
+      split; [exact HO'|]. rewrite Q1, Hrs1. cbn [app]. rewrite <- Hlh1. exact Q2. }
   apply (spec_sent_step predict predict_idem p gs gs' cf); [exact Hsok| | |congruence| |].
   - apply (cf_bound predict predict_idem _ w d p gs cf HQS). unfold confirmed_frame in *. rewrite <- Hst1. exact Ecf.
   - apply (hist_step_grows_gs _ _ _ _ _ Hh').
@@ -248,6 +252,8 @@ Definition sparse_run_timeline :=
   run_timeline_g predict predict_idem predict_zero true CIs sparse_CI_step sparse_advance_timeline sparse_CI_frame.
 Definition sparse_confirmed_frames_use_held_inputs :=
   confirmed_frames_use_held_inputs_g predict predict_idem predict_zero true CIs sparse_CI_step sparse_advance_timeline sparse_CI_frame sparse_CI_start.
+Definition sparse_sends_and_receipts :=
+  sends_and_receipts_g predict predict_idem predict_zero true CIs sparse_CI_step sparse_advance_timeline sparse_CI_frame sparse_CI_start.
 Definition sparse_confirmed_frames_use_delivered_inputs :=
   confirmed_frames_use_delivered_inputs_g predict predict_idem predict_zero true CIs sparse_CI_step sparse_advance_timeline sparse_CI_frame sparse_CI_start.
 Definition sparse_held_inputs_step :=
